@@ -414,7 +414,10 @@ func runC07Adjacent(t *fw.T) {
 // optionally a comment line with such text, then a second literal - mostly a backtick string over several lines with
 // blanks at line ends - and the values of both as the completion value.
 var seqFirstPieces = []string{"//", "http://x/y", "/*", "*/", "'", `\"`, "`", `\\`, " ", "a", "${", "}", "//'", "/", "://", "\\\\", `\'`, "``", "#", "it's", "<-", "!--"}
-var seqBetween = []string{"", "", "", "// it's a \"note\n", "x = 1 // `tick\n", "// \"\n", "//\n", "x = '//' // '\n", "y = \"`\"\n"}
+var seqBetween = []string{"", "", "", "// it's a \"note\n", "x = 1 // `tick\n", "// \"\n", "//\n", "x = '//' // '\n", "y = \"`\"\n",
+	// statements that begin with a backtick, a parenthesis or a bracket: printed without semicolons, every one of them makes
+	// the printer put a semicolon back behind the statement before it (several restorations in one output)
+	"`t`\n", "(w)\n", "[w]\n", "`a\n  b  \n`\n(w)\n", "-w\n`;`\n"}
 
 func runC07Sequences(t *fw.T) {
 	r := t.Rand()
